@@ -4,11 +4,12 @@
 (*  {"ev":"call","proto":p,"role":r,"path":[m..],"state":s,"peer":s|"",    *)
 (*   "via":entry point,"commit":bool,"cond":bool,                          *)
 (*   "steps":[{"dir":"send"|"recv","msg":m}..],"res":"ok"|"app"|"reject",  *)
-(*   "err":text,"after":s'}                                                *)
+(*   "err":text,"after":s',"bad":k,"badkind":text}                         *)
 (*     a fresh client/server pair was driven along `path` (state() of the  *)
 (*     agent under test = state, of the real peer agent = peer), then the  *)
 (*     entry point was called (recv steps: the message was put on the wire *)
-(*     by a raw peer channel first);                                       *)
+(*     by a raw peer channel first; bad = k > 0: step k was delivered with *)
+(*     an unacceptable payload, res "refuse" = refused for that reason);   *)
 (*  {"ev":"walk","proto":p,"path":[m..],"cstates":[s..],"sstates":[s..]}   *)
 (*     a real pair driven along a TLC behaviour, states after each message *)
 (*     ("" once the agent could not follow, see WalkBlind);                *)
@@ -35,8 +36,10 @@ TCall ==
            /\ e.state = s
            /\ e.peer \in {"", s}
            /\ \A i \in 1..Len(e.steps) : e.steps[i].dir \in {"send", "recv"}
-           /\ AgentOK(Q, e.role, s, e.steps, e.commit, e.cond, e.res, e.after)
-           /\ seen' = IF Len(e.steps) = 1
+           /\ IF ("bad" \in DOMAIN e) /\ e.bad > 0
+              THEN AgentOKBad(Q, e.role, s, e.steps, e.commit, e.cond, e.res, e.after, e.bad)
+              ELSE AgentOK(Q, e.role, s, e.steps, e.commit, e.cond, e.res, e.after)
+           /\ seen' = IF Len(e.steps) = 1 /\ ~(("bad" \in DOMAIN e) /\ e.bad > 0)
                       THEN seen \cup { <<e.proto, e.role, s, e.steps[1].dir, e.steps[1].msg>> }
                       ELSE seen
 
